@@ -108,6 +108,12 @@ func thoroughImpl(repo, verif string, prop *Property, res *RunResult, known Know
 			res.Broken = append(res.Broken, "variant "+v.name+": "+err.Error())
 			continue
 		}
+		if v.opt.Tests {
+			// test files cannot change the behaviour of the production code the
+			// properties speak about; the test build only has to load and type-check
+			vres = append(vres, map[string]any{"variant": v.name, "packages_with_tests_type_check": true, "functions_outside_test_files": len(P.Funcs)})
+			continue
+		}
 		r := runProperty(P, registry[prop.ID](), known)
 		nObl := 0
 		for _, rr := range r.Rules {
